@@ -59,6 +59,11 @@ Apply(e, s) ==
      \* faults one after the other - in particular the reason of the FIRST one that makes the application stop is the causing reason
      LET s1 == ApplyFault(e.i, e.reason, s) IN
      IF s1.st = "running" THEN ApplyFault(e.j, e.reason2, s1) ELSE s1
+  ELSE IF e.op = "stopunload" THEN
+     \* a stop during which an unload is attempted: the outcome is that of the stop (the unload must have been refused, see Compare)
+     IF s.st = "unloaded" THEN [s EXCEPT !.res = "unknown"]
+     ELSE IF s.st = "loaded" THEN [s EXCEPT !.st = "unloaded"]       \* nothing to stop: the unload goes through
+     ELSE [s EXCEPT !.alive = AllDead, !.st = IF e.held THEN "loaded" ELSE "unloaded", !.termCb = @ + 1, !.why = "shutdown", !.checkwhy = TRUE]
   ELSE IF e.op \in {"stop", "stopforce"} THEN
      IF s.st = "unloaded" THEN [s EXCEPT !.res = "unknown"]
      ELSE IF s.st = "loaded" THEN s
@@ -69,6 +74,8 @@ Increasing(sq) == \A a, b \in 1..Len(sq) : a < b => sq[a] < sq[b]
 
 Compare(e, s) ==
   IF "NoHang" \in Checks /\ e.hung THEN "NoHang"
+  \* an application that is running or stopping cannot be unloaded
+  ELSE IF "UnloadRefused" \in Checks /\ e.op = "stopunload" /\ e.held /\ s.checkwhy /\ e.res2 = "ok" THEN "UnloadRefused"
   \* ApplicationStopForce waits with a zero timeout: it may report "stopping" although everything is down (not judged)
   ELSE IF "Result" \in Checks /\ e.res # s.res /\ ~(e.op = "stopforce" /\ e.res = "stopping" /\ s.res = "ok") THEN "Result"
   ELSE IF "State" \in Checks /\ e.state # s.st THEN "State"
